@@ -246,6 +246,12 @@ func (h *c09H) exec(line string) (res string, ibc string) {
 			fmt.Fprintln(os.Stderr, "DEBUG", f[0], "err:", err)
 		}
 	}
+	if r, o, ok := h.execAdmin(f, m); ok {
+		if os.Getenv("C09_DEBUG") != "" {
+			fmt.Fprintln(os.Stderr, "DEBUG", f[0], "=>", r)
+		}
+		return r, o
+	}
 	switch f[0] {
 	case "update":
 		_, id := h.core.rollapp(f[1])
@@ -589,6 +595,11 @@ func (h *c09H) snapshot() *c09Snap {
 		st, ok := app.IBCKeeper.ClientKeeper.GetClientState(ctx, c.id)
 		if ok {
 			tm := st.(*ibctm.ClientState)
+			// the chain id the client has NOW (an upgrade or a recovery can change it)
+			cs.Chain = -1
+			if ri, known := h.core.raIdx[tm.ChainId]; known {
+				cs.Chain = ri
+			}
 			cs.Frozen = !tm.FrozenHeight.IsZero()
 			cs.Latest = tm.LatestHeight.RevisionHeight
 			cs.Params = tm.TrustLevel == exp.TrustLevel && tm.TrustingPeriod == exp.TrustingPeriod && tm.UnbondingPeriod == exp.UnbondingPeriod &&
@@ -870,6 +881,18 @@ func (m *c09Mon) check(op, res string, cur *c09Snap) {
 		}
 		if overlap == 0 {
 			m.violate("C09/set_canonical_requires_agreement/no-overlap", op)
+		}
+	}
+	// canonical_client_immutable: a canonical client stays a client of its rollapp's chain with the expected parameters
+	for r, c := range cur.R2C {
+		if c < 0 || c >= len(cur.Clients) {
+			continue
+		}
+		if cur.Clients[c].Chain != r {
+			m.violate("C09/canonical_client_immutable/chain-id-changed", fmt.Sprintf("canonical client c%d of r%d has the chain id of %d after %s", c, r, cur.Clients[c].Chain, op))
+		}
+		if _, was := prev.R2C[r]; was && !cur.Clients[c].Params && prev.Clients[c].Params {
+			m.violate("C09/canonical_client_immutable/parameters-changed", fmt.Sprintf("canonical client c%d of r%d after %s", c, r, op))
 		}
 	}
 	// agreement_inv / later_conflict_rejected: an item that arrives while the client is canonical must agree
@@ -1606,6 +1629,25 @@ func (c *c09Gen) next(cs *coreSnap, ls *c09Snap, inBlock *bool) string {
 			return fmt.Sprintf("bond_dec a%d amt=%d", a, 1+g.Intn(500))
 		}
 	}
+	if hasCanon && canon < len(ls.Clients) && ls.Clients[canon].Frozen && len(mine) > 1 && g.Chance(30) {
+		// the window after a fork froze the canonical client: governance recovers it with another client of the chain
+		sub := mine[g.Intn(len(mine))]
+		c.r.Hit("admin/recover-frozen-canonical-client")
+		return fmt.Sprintf("lc_recover c%d sub=c%d", canon, sub)
+	}
+	if len(mine) > 1 && g.Chance(2) {
+		c.r.Hit("admin/recover-any")
+		return fmt.Sprintf("lc_recover c%d sub=c%d", mine[g.Intn(len(mine))], mine[g.Intn(len(mine))])
+	}
+	if len(mine) > 0 && g.Chance(2) {
+		ci := mine[g.Intn(len(mine))]
+		if hasCanon && g.Bool() {
+			ci = canon
+		}
+		chain := []string{"x", "r0", "r1"}[g.Intn(3)]
+		c.r.Hit("admin/upgrade")
+		return fmt.Sprintf("lc_upgrade c%d chain=%s h=%d ts=%d nv=%d", ci, chain, ls.Clients[ci].Latest+uint64(g.Intn(3)), 2000+g.Intn(50), 1+g.Intn(5))
+	}
 	if len(mine) > 0 && g.Chance(9) {
 		if l := c.txLine(ri, ra, cs, ls, mine); l != "" {
 			return l
@@ -1870,6 +1912,12 @@ func c09Directed() [][]string {
 			"lc_misb c0 k=submitGroup h=4 root=5 ts=40 nv=1 ps=a0 pd=a0 rev=0 trusted=2 vals=a0:1:1 tvals=a0:1:1",
 			"lc_misb c0 k=viaUpdateGroup h=4 root=5 ts=40 nv=1 ps=a0 pd=a0 rev=0 trusted=2 vals=a0:1:1 tvals=a0:1:1",
 			"lc_update c0 w=group h=5 root=6 ts=50 nv=1 ps=a0 pd=a0 rev=0 trusted=2 vals=a0:1:1 tvals=a0:1:1"}),
+		// a fork freezes the canonical client; governance recovers it with a client of another chain that carries a bogus consensus
+		// state at the posted height 3 and another trusting period; an upgrade with a non-verifying proof before and after
+		cat(ra0, []string{up(1, 5), "bridge r0 h=1", honest, "lc_setcanon c0",
+			"lc_create chain=x tl=0 tp=1 ub=0 dr=0 specs=1,2 path=1,2 h=3 root=99 ts=30 nv=1001",
+			"lc_upgrade c0 chain=x h=9 ts=2000 nv=2", "lc_recover c0 sub=c1", "fraud r0 auth=gov h=5 rev=0 punish=- rewardee=-",
+			"lc_upgrade c0 chain=x h=9 ts=2000 nv=2", "lc_recover c0 sub=c1", "lc_recover c0 sub=c7", "lc_recover c1 sub=c0", "lc_upgrade c7 chain=r1 h=9 ts=2000 nv=2"}),
 		// the first channel over the canonical client is opened by an ack inside authz.MsgExec / by MsgChannelOpenConfirm: it does not
 		// become canonical, the next channel acknowledged at top level does
 		cat(ra0, []string{up(1, 3), honest, "lc_setcanon c0", "lc_chaninit c0", "lc_chaninit c0", "lc_chanack ch0 w=nested ibc=1", "lc_chanack ch1 w=top ibc=1"}),
